@@ -5,6 +5,7 @@ CHECKS["C03"] = dict(
     technique="bounded symbolic execution of clang LLVM IR of the real templates, SMT (z3/cvc5, integer and bit-vector emissions)",
     text="For every (rep, N/D) instance of an enumerated factor grid, the solver decides for ALL stored values that "
          "not is_conversion_lossy(x) implies coerce_in/coerce_as compute exactly x*N/D with no reachable UB or unsigned-wrap trap. "
+         "The checker itself is UB-free for every x (otherwise its answer means nothing). Reps: the eight fixed-width types plus long long / unsigned long long (distinct types of the same width on LP64). "
          "Complete over values inside each instance; the factor quantifier is a stated grid.",
     note=TB + "; factors enumerated not symbolic; out-of-domain (non-compiling) conversions dropped and counted.")
 NA["C01"] = ("observable is the compiler's accept/reject verdict on ill-formed programs; no function body executes, so there is no IR "
@@ -15,12 +16,12 @@ CHECKS["C04"] = dict(
     text="Per (rep, N/D) instance the solver decides, for ALL stored values and in both directions, that will_conversion_truncate / "
          "will_conversion_overflow / is_conversion_lossy equal the exact predicates (D does not divide x*N; x*N outside the promoted range "
          "or x*N/D outside the rep's range). For float/double/long double: (A) infinite converted value => overflow reported, "
-         "(B) overflow reported => converted value infinite or within 2 ulp of max, for every bit pattern.",
+         "(B) overflow reported => converted value infinite or within 2 ulp of max, for every bit pattern. Integral reps: the eight fixed-width types plus long long / unsigned long long.",
     note=TB + "; factors enumerated; FP claims are about the single IEEE operation the conversion performs; known finding D7 (one value per sign at the rounded threshold) is excluded by predicate and reported as KNOWN-FINDING.")
 CHECKS["C05"] = dict(
     category="model_checking",
     technique="bounded symbolic execution of clang LLVM IR of the real templates, SMT (z3/cvc5; integer, bit-vector and FP theories)",
-    text="For all 121 ordered rep pairs x enumerated factors, for ALL source values / bit patterns: not is_conversion_lossy<T> => the conversion "
+    text="For all 121 ordered rep pairs (plus 18 pairs with long long / unsigned long long) x enumerated factors, for ALL source values / bit patterns: not is_conversion_lossy<T> => the conversion "
          "executes no UB and is exact (integral common type) or value-preserving in the final cast (floating common type); NaN/inf/out-of-range/"
          "non-integral intermediate => lossy; for integral sources will_conversion_overflow<T> <=> some step's exact value leaves its range; "
          "the checkers themselves execute no UB.",
@@ -44,7 +45,8 @@ CHECKS["C10"] = dict(
     technique="bounded symbolic execution of clang LLVM IR of the real templates, SMT (z3/cvc5) plus closed compile-time facts checked against an exact rational model",
     text="Per list of point units (pairs, triples; library + seeded random generated units): multiplier m and offset o are read off each to-common-point-unit kernel and the solver "
          "proves to_cpu(x) == x*m + o for ALL x (mod 2^64 unsigned; exact and trap-free when it fits, signed); closed facts: m positive integer, o non-negative, one common unit "
-         "dividing the model's gcd unit, offsets consistent with exact origins, type identical under permutation/repetition, equals an input exactly when m=1,o=0.",
+         "dividing the gcd of the scales and origin differences, offsets consistent with exact origins (origins written in kelvins, prefixed units and anonymous scalings of prefixed / derived units), "
+         "type identical under permutation/repetition and through common_point_unit(...), equals an input exactly when m=1,o=0.",
     note=TB + "; lists enumerated; type-identity facts are compile-time booleans, not solver-decided.")
 CHECKS["C06"] = dict(
     category="model_checking",
@@ -64,20 +66,20 @@ CHECKS["C19"] = dict(
     category="translation_validation",
     technique="solver equivalence (SMT over clang LLVM IR) of each ZERO kernel with the raw-zero reference kernel compiled in the same TU",
     text="For 11 reps x several units and every bit pattern (NaN, inf, -0.0 included): q op ZERO / ZERO op q equal x op 0 / 0 op x, q +/- ZERO equals q at value level, "
-         "Quantity(ZERO), T(ZERO) and chrono duration(ZERO) are 0; rejection for QuantityPoint observed as closed trait booleans.",
+         "Quantity(ZERO), T(ZERO) and chrono duration(ZERO) are 0; the comparisons are additionally lowered at -std=c++20 (one unit per rep); rejection for QuantityPoint observed as closed trait booleans.",
     note=TB + "; clang only; 'never accepted where a point is required' is observed only through is_constructible/is_convertible/is_assignable booleans.")
 CHECKS["C02"] = dict(
     category="model_checking",
     technique="bounded symbolic execution of clang LLVM IR of conversion kernels between generated unit expressions, SMT (z3/cvc5), against an independent exact unit model",
     text="For seeded generated pairs of unit expressions (products, quotients, rational powers, roots, magnitudes, prefixes; five spellings) the int64 conversion kernel is proved for ALL x to be exactly "
          "x*N/D with the MODEL's N, D; the double kernel is proved for ALL x to be a single IEEE multiply/divide by a constant that is within 4 ulp of the model's exact ratio; ratio-1 pairs are the identity; "
-         "equivalence / same-dimension / type-identity / is_integer / is_rational are closed booleans compared with the model.",
+         "equivalence / same-dimension / type-identity / is_integer / is_rational are closed booleans compared with the model; the nine base-dimension exponents, read out of the unit's Dimension pack, equal the model's exponent vector for products and quotients of every pair of library units (one per distinct dimension in quick) and for every generated expression; every spelling (maker, singular name, symbol) of every library unit denotes its type's unit.",
     note=TB + "; unit model written from SI/NIST definitions; expression trees enumerated (seeded); canonical type identity observed only as closed booleans; documented Hertz/Becquerel-style exclusions applied.")
 CHECKS["C07"] = dict(
     category="model_checking",
     technique="bounded symbolic execution of clang LLVM IR of to-common-unit kernels, SMT (z3/cvc5), against an independent gcd-of-rationals model; closed type-identity booleans",
     text="For seeded lists (2-4) of same-dimension units: each to-common-unit kernel is proved for ALL x to be x*m_i (no division, trap-free when it fits) and the m_i must equal the model's U_i/gcd(U_1..U_k) "
-         "(positive, jointly coprime); the common unit is an input exactly when the model says so; CommonUnitT is the identical type under permutations/repetitions and nested forms are quantity-equivalent "
+         "(positive, jointly coprime); the common unit is an input exactly when the model says so; CommonUnitT is the identical type under permutations/repetitions, the value-level spelling common_unit(u1, u2, ...) denotes that same type in every argument order, and nested forms are quantity-equivalent "
          "(closed booleans); irrational lists: symmetry booleans only.",
     note=TB + "; lists enumerated (seeded); type identity is a compile-time boolean.")
 CHECKS["C12"] = dict(
@@ -85,14 +87,15 @@ CHECKS["C12"] = dict(
     technique="bounded symbolic execution of clang LLVM IR (unsigned-wrap traps on), SMT: integer emission with quotient/remainder abstraction (z3/cvc5 NIA) and bit-vector emission at reduced width",
     text="At full 64-bit width and for ALL inputs under the documented preconditions: add_mod, sub_mod, half_mod_odd return the exact residue with no intermediate wrap; decompose(n) = (s, d) with n == d<<s, d odd "
          "(unwind 64 + unwinding assertion); mul_mod: one inductive step (recursive call replaced by its contract): call-site precondition, strict decrease, no wrap/div-by-zero, result < n, result formula, "
-         "and a*b == result + Q*n with a witness Q; the same step bit-precisely at W=5/6 bits without hints; is_perfect_square(n) is false and trap-free for ALL 64-bit odd n that are non-residues mod 8 or mod 3/5/7 (Newton loop unwound 5 quick / 24 thorough, unwinding is a precondition); gcd(a,b) at 6 bits (quick) / 8 bits (thorough) of the re-interpreted IR is the greatest common divisor for ALL a,b. Factorisation/primality read-outs for adversarial numbers (all base-2 strong pseudoprimes below 2^21 and a dense tail, Carmichael numbers, squares that wrap, 64-bit semiprimes) are closed compile-time facts.",
-    note=TB + "; primality/factor-finder exactness for every 64-bit n, pow_mod, 64-bit gcd, jacobi, Lucas are NOT claimed (outside bounded symbolic execution); reduced-width results are about the re-interpreted IR and are flagged as such in evidence.")
+         "and a*b == result + Q*n with a witness Q; the same step bit-precisely at W=5/6 bits without hints; is_perfect_square(n) is false and trap-free for ALL 64-bit odd n that are non-residues mod 8 or mod 3/5/7 (Newton loop unwound 5 quick / 12 thorough, unwinding is a precondition); gcd(a,b) at 6 bits (quick) / 8 bits (thorough) of the re-interpreted IR is the greatest common divisor for ALL a,b; find_prime_factor(n) at full width is the least prime factor for ALL 1 < n < 2^12 (2^16 thorough; trial-division phase, unwound with assertion); jacobi_symbol at 5 (6) bits equals an independent table for ALL signed a and odd n; thorough: pow_mod at 4 bits == base^exp mod n by repeated multiplication, miller_rabin at 4 bits (no wrap) and 5 bits == the definition, with mul_mod recursion inlined. Factorisation/primality read-outs for adversarial numbers (all base-2 strong pseudoprimes below 2^21 and a dense tail, Carmichael numbers, squares that wrap, 64-bit semiprimes) and find_prime_factor on inputs chosen per path through the function (trial hit, early exit, prime beyond the table, Pollard rho returning a prime / a composite divisor with one or more re-splits / needing a parameter retry) are closed compile-time facts.",
+    note=TB + "; primality/factor-finder exactness for every 64-bit n, 64-bit pow_mod, gcd, jacobi, miller_rabin, strong Lucas and Pollard rho are NOT claimed (outside bounded symbolic execution); reduced-width results are about the re-interpreted IR and are flagged as such in evidence.")
 CHECKS["C14"] = dict(
     category="translation_validation",
     technique="solver equivalence (SMT over clang LLVM IR) of Au product/quotient/power kernels with raw-operator / std-function reference kernels in the same TU; closed unit facts vs model",
     text="For reps x unit pairs and ALL operand values: q*q, q/q, s*q, s/q, unblock_int_div forms, int_pow<k>, sqrt, cbrt, as_raw_number equal the raw operator / libm call on the stored values (same bits or both NaN, "
-         "same trap condition); int_pow on 8/16-bit reps equals x^k whenever x^k is representable; resulting units and collapse-to-raw-number are closed booleans vs a hand-written model table.",
-    note=TB + "; libm functions are uninterpreted (congruence only); rejection clauses (integer-division guard, as_raw_number on dimensioned input) observed as negative compile probes only.")
+         "same trap condition); int_pow on 8/16-bit reps equals x^k whenever x^k is representable; resulting units and collapse-to-raw-number are closed booleans vs a hand-written model table; as_raw_number compiles exactly when the documented policy accepts the conversion to the unitless unit "
+         "(grid rep x factor at the thresholds floor(max/2147), +1, 10^7, 10^9, non-integers) and accepted forms equal x*k for ALL x.",
+    note=TB + "; libm functions are uninterpreted (congruence only); rejection clauses (integer-division guard, as_raw_number on dimensioned / overflow-risky input) are compiler verdicts observed at lowering, not solver results.")
 CHECKS["C17"] = dict(
     category="translation_validation",
     technique="solver equivalence (SMT over clang LLVM IR) of Au chrono-interop kernels with pure std::chrono reference kernels in the same TU; closed mapping facts vs model",
@@ -124,13 +127,14 @@ CHECKS["C18"] = dict(
     category="model_checking",
     technique="bounded symbolic execution of clang LLVM IR: digit-count loops unwound (20) for all 64-bit inputs; label arrays read at a symbolic index (SMT ite-chains over constant data) vs an independent grammar model",
     text="string_size_unsigned(x) == number of decimal digits for ALL x < 2^64 and string_size(x) for all x > INT64_MIN; for a grid of unit expressions, IToA/UIToA arguments and magnitude labels: for ALL indices i <= len the "
-         "i-th character equals the independently generated expected label, the terminator is NUL and sizeof == len+1; labels of distinct units differ (closed); operator<< on Quantity/QuantityPoint over a recording stream stub: for ALL stored values the emitted event trace is (value inserted with the promoted arithmetic type - never a char insertion for 8-bit reps -, then one space, then the label), equal to the hand-written twin.",
+         "i-th character equals the independently generated expected label, the terminator is NUL and sizeof == len+1; labels of distinct units differ (closed); operator<< on Quantity/QuantityPoint over a recording stream stub: for ALL stored values the emitted event trace is (value inserted with the promoted arithmetic type - never a char insertion for 8-bit reps -, then one space, then the label), and the printed text equals `os << +value` followed by the label under five stream formatting states (native twins).",
     note=TB + "; the real std::ostream (virtual dispatch, locale, digit formatting) is replaced by the recording stub and is outside; unit expressions enumerated.")
 CHECKS["C20"] = dict(
     category="translation_validation",
     technique="solver equivalence (SMT over clang LLVM IR) of each kernel lowered in several build configurations against the c++14 multi-header baseline",
     text="A seeded subset of the other checks' kernels is lowered at c++14 (baseline), c++17, c++20, and against generated single-file headers (with and without I/O; thorough: random unit subset, double inclusion) "
          "with no other Au path on the include line; every (kernel, configuration) pair is proved equivalent to the baseline for ALL inputs (same bits, same trap condition); accept/reject parity per kernel and "
-         "'every public header compiles on its own (twice)' are observed as lowering-stage facts; container-level comparisons equal the raw-rep comparison in every configuration; closed facts (labels, sizes, traits, constexpr values) are required identical between the clang and the g++ build of the same kernels in every -std.",
+         "'every public header compiles on its own (twice)' are observed as lowering-stage facts; container-level comparisons equal the raw-rep comparison in every configuration; closed facts (labels, sizes, traits, constexpr values) are required identical between the clang and the g++ build of the same kernels in every -std; a two-translation-unit program that ODR-uses labels and numeric_limits members and streams quantities "
+         "is built at -O0 by g++ and clang++ at c++14/17/20 against the multi-header tree and the single-file header: every configuration must link, run and print the same text (observed).",
     note=TB + "; the symbolic half is clang only (gcc has no IR to encode): the gcc axis is covered by closed-fact parity (g++-built kernels executed natively) and the differential execution in translator validation, which is sampling, not a solver verdict; fwd-declaration agreement is observed only as: the _fwd header followed by the definition compiles.")
 NA["C01"] = NA["C01"]
